@@ -369,3 +369,19 @@ Proof.
   rewrite UV. unfold sem_of_pair, classify, logical. cbn [fst snd].
   destruct (bytes_eqb (plain (sp_key p)) info_hash_key); reflexivity.
 Qed.
+
+(* RawPath / RawQuery are the two sides of the first '?' *)
+Lemma params_raw path query q :
+  no_qmark path = true -> parse_url_data (path ++ 63 :: query) = inr q ->
+  q_path q = path /\ q_query q = query.
+Proof.
+  intros Hp. unfold parse_url_data. rewrite cut_at_app by exact Hp.
+  destruct (parse_query query) as [e|[ps ihs]]; [discriminate|].
+  intros H; injection H as <-. split; reflexivity.
+Qed.
+Lemma params_raw_noquery uri q :
+  no_qmark uri = true -> parse_url_data uri = inr q -> q_path q = uri /\ q_query q = [] /\ q_params q = [] /\ q_ihs q = [].
+Proof.
+  intros Hp. unfold parse_url_data. rewrite cut_at_none by exact Hp. cbn.
+  intros H; injection H as <-. repeat split; reflexivity.
+Qed.
